@@ -76,6 +76,8 @@ class Profile(dict):
         relations=True,
         lexfile=True,
         dup_rel=0.1,
+        rel_synset=None, rel_sense=None, rel_sense_synset=None,   # relation type pools
+        p_rel=0.6,
     )
 
     def __init__(self, **kw):
@@ -423,21 +425,22 @@ def gen_lexicon(rng, lmfver, lexid, lexver, profile=None, base=None, language=No
     if p['relations']:
         ss_targets = ss_ids + ext_ss_ids
         s_targets = local_sense_ids + ext_sense_ids
+        RS, RSE, RSS = p['rel_synset'] or REL_SYNSET, p['rel_sense'] or REL_SENSE, p['rel_sense_synset'] or REL_SENSE_SYNSET
         for ss in synsets + ext_synsets:
-            if ss_targets and g.opt(0.6):
-                rels = [g.relation(r.choice(ss_targets), REL_SYNSET) for _ in range(r.randint(1, p['max_rel']))]
+            if ss_targets and g.opt(p['p_rel']):
+                rels = [g.relation(r.choice(ss_targets), RS) for _ in range(r.randint(1, p['max_rel']))]
                 if rels and r.random() < p['dup_rel']:
                     rels.append(copy.deepcopy(r.choice(rels)))
                 ss['relations'] = rels
         for e in entries:
             for s in e.get('senses', []):
-                if g.opt(0.5):
+                if g.opt(p['p_rel'] - 0.1):
                     rels = []
                     for _ in range(r.randint(1, p['max_rel'])):
                         if s_targets and r.random() < 0.7:
-                            rels.append(g.relation(r.choice(s_targets), REL_SENSE))
+                            rels.append(g.relation(r.choice(s_targets), RSE))
                         elif ss_targets:
-                            rels.append(g.relation(r.choice(ss_targets), REL_SENSE_SYNSET))
+                            rels.append(g.relation(r.choice(ss_targets), RSS))
                     if rels and r.random() < p['dup_rel']:
                         rels.append(copy.deepcopy(r.choice(rels)))
                     if rels:
